@@ -214,6 +214,10 @@ def gen_cases(ctx, n):
     for g in G.classic_corpus():
         grams.append(g)
         fams.append("classic")
+    # grammars on which Pager's garbage collection really removes states (reachability clause)
+    for src in G.gc_chain_corpus()[:ctx.n(40, 60)] + G.gc_corpus()[:ctx.n(30, 120)]:
+        grams.append(G.from_text(src))
+        fams.append("gc_corpus")
     seen = set(g.render() for g in grams)
     guard = 0
     while len(grams) < n and guard < 20 * n:
